@@ -93,7 +93,7 @@ pub fn gen_sources(rng: &mut Rng, tier: &Tier) -> Vec<Case> {
     // counts at the top of their range: a width of `usize::MAX` is a width ("repeat(first).take(usize::MAX).chain(..)" is
     // a perfectly good iterator); only a prefix can ever be pulled
     for l in leaves {
-        for big in [usize::MAX, usize::MAX - 1] {
+        for big in [usize::MAX, usize::MAX - 1, 1usize << 32, (1usize << 32) + 2, (1usize << 40) + 1, 0xFFFF_FFFF_0000_0003, 1usize << 16, (1usize << 16) + 1] {
             for e in [
                 format!("take({},{})", big, l),
                 format!("pade({},{})", big, l),
@@ -380,6 +380,37 @@ pub fn gen_sinks(rng: &mut Rng, tier: &Tier) -> Vec<Case> {
             cases.push(c);
         }
     }
+    // copies of a sink — a clone, or an existing sink overwritten with `clone_from` (by one that has received samples,
+    // or none): the copy is afterwards the sink its source is, and what one receives later does not reach the other
+    let mut kinds: Vec<String> = SINKS.iter().filter(|k| **k != "sink_unit_sum" || cfg!(feature = "units")).map(|k| k.to_string()).collect();
+    for k in ["sink_mean_i64", "sink_stats_i64", "sink_integrate_i64", "sink_last_fz", "sink_min_fz", "sink_bounds_fz"] {
+        kinds.push(k.to_string());
+    }
+    for kind in kinds {
+        for _ in 0..tier.n(6, 60) {
+            let val = |rng: &mut Rng| if kind.ends_with("_fz") { (*rng.pick(&["0", "-0", "1", "-1"])).to_string() } else { rng.range(-6, 6).to_string() };
+            let mut c = vec![format!("new 1 {}", kind), format!("new 2 {}", kind)];
+            for _ in 0..rng.range(0, 4) {
+                c.push(format!("sink 1 {}", val(rng)));
+            }
+            if rng.chance(1, 2) {
+                for _ in 0..rng.range(1, 3) {
+                    c.push(format!("sink 2 {}", val(rng)));
+                }
+            }
+            c.push("kclonefrom 1 2".into());
+            c.push("fin 1".into());
+            c.push("fin 2".into());
+            c.push(format!("sink 1 {}", val(rng)));
+            c.push("fin 1".into());
+            c.push("fin 2".into());
+            c.push("kclone 1 3".into());
+            c.push(format!("sink 3 {}", val(rng)));
+            c.push("fin 3".into());
+            c.push("fin 1".into());
+            cases.push(c);
+        }
+    }
     // the order-only sinks at the smallest machine integers, ends of the range included
     for (suffix, vals) in [("u8", [0i64, 1, 2, 127, 128, 254, 255]), ("i8", [-128i64, -127, -1, 0, 1, 126, 127])] {
         for kind in ["sink_min", "sink_max", "sink_bounds"] {
@@ -403,7 +434,8 @@ pub fn gen_sinks(rng: &mut Rng, tier: &Tier) -> Vec<Case> {
 /// the stages of the C01 pipes are the harness's own (see other.rs): C01 must not raise an alarm because some
 /// library filter used as a stage is broken
 fn pipe_leaf(rng: &mut Rng) -> String {
-    match rng.below(4) {
+    match rng.below(5) {
+        4 => format!("p_side;b={}", rng.range(-3, 3)),
         0 => format!("p_acc;a={}", rng.range(-3, 3)),
         1 => format!("p_affine;a={};b={}", *rng.pick(&[-2i64, -1, 2, 3]), rng.range(-3, 3)),
         2 => format!("p_lag;init={}", rng.range(-3, 3)),
